@@ -40,6 +40,7 @@ func c09Bases() []c09Base {
 	nit := modelNIT(3)
 	eit := modelEIT(3)
 	tot := modelTOT()
+	eitBig := modelEIT(48) // section_length beyond 1021: only EIT (and TOT-class tables) may be that long
 	return []c09Base{
 		{"PAT", 0, [][]byte{SecPAT(pat, ref.SecHdr{CNI: true, Version: 7})}, []ExpData{{Kind: "PAT", Table: pat}}},
 		{"PMT", 0x1000, [][]byte{SecPMT(pmt, ref.SecHdr{CNI: true, Version: 1})}, []ExpData{{Kind: "PMT", Table: pmt}}},
@@ -47,6 +48,7 @@ func c09Bases() []c09Base {
 		{"NIT", 0x10, [][]byte{SecNIT(nit, ref.SecHdr{CNI: true})}, []ExpData{{Kind: "NIT", Table: nit}}},
 		{"EIT-2-packets", 0x12, [][]byte{SecEIT(eit, ref.SecHdr{TableID: 0x51, CNI: true})}, []ExpData{{Kind: "EIT", Table: eit}}},
 		{"TOT", 0x14, [][]byte{SecTOT(tot)}, []ExpData{{Kind: "TOT", Table: tot}}},
+		{"EIT-over-1021-bytes", 0x12, [][]byte{SecEIT(eitBig, ref.SecHdr{TableID: 0x60, CNI: true})}, []ExpData{{Kind: "EIT", Table: eitBig}}},
 	}
 }
 
@@ -178,13 +180,18 @@ func checkC09(c *mc.Ctx) {
 		}
 		maxBurst := 32
 		step := 1
-		if !c.Thorough() {
-			step = 1
+		if len(unit) > 1024 && !c.Thorough() {
+			// sections beyond the 1021-byte class (EIT, up to 4093): single flips, byte classes and
+			// truncations are complete; bursts start at every 8th bit with lengths 2, 9, 32 in the quick tier
+			step = 8
 		}
 		for bit := 0; bit < len(unit)*8; bit += step {
 			for l := 2; l <= maxBurst; l++ {
 				if bit+l > len(unit)*8 {
 					break
+				}
+				if step > 1 && l != 2 && l != 9 && l != 32 {
+					continue
 				}
 				bit, l := bit, l
 				for pat := 0; pat < 2; pat++ {
